@@ -1,5 +1,5 @@
 """C13 - built-in functions do what their documentation says."""
-from . import machine
+from . import docex, machine
 
 replay_one = machine.replay_one
 
@@ -15,8 +15,11 @@ def run(chk):
     chk.rule = ("every non-graphics built-in of docs/builtins.md on argument tuples from value classes (empty, non-ASCII, "
                 "negative, fractional, nan, infinities, nested composites, any-wrapped), conversion sequences observing "
                 "err/errmsg after each call, printf/sprintf verbs, rand as a range monitor, exit/panic/test outcomes with "
-                "--fail-fast and --no-test-summary; non-trivial = distinct (program, flags)")
+                "--fail-fast and --no-test-summary; every example of docs/builtins.md and docs/spec.md that shows its output, "
+                "parsed by the real parser, run by the machine and by evy run; non-trivial = distinct (program, flags)")
     chk.exhaustive = True
+    # the documented examples: documentation, machine and implementation compared pairwise
+    cases += docex.run(chk)
     machine.replay_family(chk, cases)
     chk.assumptions += [
         "transcendental functions only at exactly representable points; upper/lower on ASCII only (no Unicode case tables in the model)",
